@@ -1615,7 +1615,7 @@ def wtdmig(f, dct):
         elif value.shape[0] != value.shape[1]:
             form = 2
         else:
-            if np.allclose(m.transpose(), m):
+            if rowids.equals(colids) and np.allclose(m.transpose(), m):
                 form = 6
             else:
                 form = 1
